@@ -1,15 +1,14 @@
 CONSTANTS
-  ESet <- OneTwo
-  Shapes1 <- Shapes33
+  ESet <- One
+  Shapes1 <- Shapes22
   Shapes2 <- Shapes22
   Shapes3 <- Shapes22
-  RSet1 <- OneTwo
+  RSet1 <- One
   RSet2 <- One
   RSet3 <- One
   KeyMode = "before"
   WalkMode = "reverse"
   NCases = 1000000
-INIT ExhInit
-NEXT ExhNext
-INVARIANT Emit
-INVARIANT LocateLemma
+INIT BigInit
+NEXT BigNext
+INVARIANT EmitBig
